@@ -282,6 +282,68 @@ def check_ban(run, A):
               'return value is not the input vector times the absolute value of one gain per leading index (trailing singleton axis)', construct=f'SHAPE::{q}::gain')
 
 
+SOLVERS = ('numpy.linalg.solve', 'scipy.linalg.solve', 'scipy.linalg.solve_triangular', 'numpy.linalg.inv', 'numpy.linalg.pinv',
+           'pb_bss.math.solve::solve', 'pb_bss.math.solve::stable_solve', 'pb_bss.math.solve::_solve', 'pb_bss.math.solve::_lstsq')
+
+
+def check_hermitian_factors(run, A, module_prefixes=('pb_bss.extraction.beamformer', 'pb_bss.math.solve')):
+    """R-HERM: Phi = L L^H (Cholesky) and Phi = V diag(l) V^H (eigh) of a complex Hermitian matrix: the second factor is the CONJUGATE transpose of the first.  A factor
+    that is transposed over its last two axes WITHOUT a conjugation and handed to a solver / inverse as the coefficient matrix (`solve(L.swapaxes(-1, -2), v)` for
+    L^-H v) is L^T: the whitening is undone with the wrong matrix whenever Phi has a non-zero imaginary part; real test matrices do not show it.  Judged: transposed
+    factors used as coefficient of a solver with no conjugation directly inside or outside the transposition; every other use of a transposed factor is not judged."""
+    from ..walk import axis_reordering
+    n = n_t = 0
+    for fn in A.prog.all_funcs():
+        if not any(fn.mod.name == p or fn.mod.name.startswith(p + '.') for p in module_prefixes):
+            continue
+        g = A.graphs.get(fn)
+        seen = set()
+        terms = []
+        for r in [g.ret] + [e.term for e in g.events if e.term is not None]:
+            if isinstance(r, T):
+                terms += list(walk_terms(r, seen))
+
+        def factor_of(x, depth=0):
+            """x is (a view / copy / astype of) a Cholesky factor or an eigenvector matrix of eigh -> description"""
+            x = strip_views(x)
+            if not isinstance(x, T) or depth > 6:
+                return None
+            if is_call_to(x, 'numpy.linalg.cholesky', 'scipy.linalg.cholesky'):
+                return 'Cholesky factor'
+            if x.op == 'unpack' and x.args[1] == 1 and is_call_to(strip_views(x.args[0]), 'numpy.linalg.eigh', 'scipy.linalg.eigh'):
+                return 'eigenvector matrix'
+            nm, pos, kw = call_parts(x)
+            if nm in ('method:astype', 'method:copy', 'numpy.ascontiguousarray', 'numpy.asarray', 'numpy.array') and pos:
+                return factor_of(pos[0], depth + 1)
+            return None
+        conj_args = {strip_views(is_conj(t)[0]).id for t in terms if is_conj(t)[1]}
+        coeff = {}
+        for t in terms:
+            nm, pos, kw = call_parts(t)
+            if nm in SOLVERS and pos:
+                coeff[strip_views(pos[0]).id] = (nm, t)
+        for t in terms:
+            ro = axis_reordering(t)
+            if ro is None or ro[1] not in (('swap', frozenset((-1, -2))), ('swap', frozenset((-2, -1)))):
+                continue
+            x, cj = is_conj(ro[0])
+            what = factor_of(x)
+            if what is None:
+                continue
+            n_t += 1
+            use = coeff.get(strip_views(t).id) or coeff.get(t.id)
+            if use is None:
+                continue
+            n += 1
+            paired = cj or strip_views(t).id in conj_args or t.id in conj_args
+            run.check(paired, 'R-HERM', f'{fn.qual.split("::")[1]}: the transposed {what} handed to {use[0].split("::")[-1].split(".")[-1]} is the conjugate transpose', fn.loc(getattr(t, 'node', None)), '',
+                      f'the {what} of a Hermitian matrix is transposed without a conjugation and used as the coefficient matrix of {use[0]}: for complex data the second factor '
+                      f'of the decomposition is the CONJUGATE transpose (L^H, V^H); L^T differs wherever the matrix has an imaginary part',
+                      construct=f'R-HERM::{fn.qual}::{what}')
+    run.count('transposed Cholesky / eigenvector factors', n_t)
+    run.count('... of them used as the coefficient of a solver (judged)', n)
+
+
 def check(run):
     A = run.A
     run.explanation = (
@@ -293,3 +355,4 @@ def check(run):
     check_pca(run, A)
     check_rank_one(run, A)
     check_ban(run, A)
+    check_hermitian_factors(run, A)
